@@ -244,6 +244,9 @@ Definition is_integer T id := flag T id 1.
 Definition is_string T id := flag T id 5.
 Definition is_iface (T : tytable) (id : N) : bool := tkind_eqb (t_kind (tget T (t_under (tget T id)))) TIface.
 Definition is_tparam (T : tytable) (id : N) : bool := tkind_eqb (t_kind (tget T id)) TTParam.
+(* a type literal (not a defined type, predeclared type or type parameter): assignable to/from any type with the same underlying type *)
+Definition is_unnamed (T : tytable) (id : N) : bool :=
+  match t_kind (tget T id) with TNamed | TBasic | TTParam | TOther | TOpaque => false | _ => true end.
 Definition is_tuple_of (T : tytable) (id : N) (comps : list N) : bool :=
   tkind_eqb (t_kind (tget T id)) TTuple &&
   (fix eq (a b : list N) : bool :=
@@ -277,8 +280,16 @@ Definition type_ok (T : tytable) (f : func) (i : instr) : bool :=
     match i_aux i with
     | [0] => (opty ops 0 =? ty) && (opty ops 1 =? ty)
     | [1] => opty ops 0 =? ty
-    | [2] => is_bool T ty
+    | [2] => is_bool T ty &&
+             ((opty ops 0 =? opty ops 1) || negb (has_core T (opty ops 0)) || negb (has_core T (opty ops 1)) ||
+              (is_kind T (opty ops 0) TChan && is_kind T (opty ops 1) TChan) ||
+              ((core T (opty ops 0) =? core T (opty ops 1)) && (is_unnamed T (opty ops 0) || is_unnamed T (opty ops 1))))
     | _ => false
+    end
+  | KUnOp =>      (* aux = [0] for logical negation: operand and result have the same type *)
+    match i_aux i with
+    | [0] => Nat.eqb (length ops) 1%nat && (opty ops 0 =? ty)
+    | _ => true
     end
   | KFieldAddr =>
     Nat.eqb (length ops) 1%nat &&
